@@ -628,6 +628,80 @@ def r4_vocabulary(facts, rep, tabs, tier):
 
 
 # ---- R5: unit-expression wiring --------------------------------------------------------------------------------
+SI_SYMBOLS = ["m", "g", "s", "A", "K", "mol", "cd", "N", "Pa", "J", "W", "C", "V", "F", "S", "Wb", "T", "H", "lm", "lx", "Bq", "Gy", "Sv", "kat", "Ω"]
+
+
+def r8_si_words(facts, rep, tabs):
+    rep.rule("C05-R8", "an SI prefix symbol in front of an SI unit symbol means that prefix of that unit (SI brochure, tables 4, 7): "
+                       "for the 20 prefixes x the SI unit symbols the vocabulary knows, the word is read as (the unit's own "
+                       "reading shifted by the prefix's exponent) or is rejected - an alias that takes such a word over (`nm` for "
+                       "the nautical mile) changes the meaning of a standard word")
+    if tabs is None:
+        return
+    si = load_ref("si_prefixes").PREFIXES
+    n = 0
+    for u in SI_SYMBOLS:
+        r0 = model_parse_all(tabs, u)
+        if not r0 or len(r0) != 1:
+            continue
+        e0, idu = r0[0]
+        for name, (sym, x) in sorted(si.items()):
+            w = sym + u
+            r = model_parse_all(tabs, w)
+            n += 1
+            okk = r is None or r == [(e0 + x, idu)]
+            if not okk:
+                rep.ob("C05-R8", "si-word:%s" % w, False, "`%s` is read as %s; SI: %s%s = 10^%d %s" % (w, r, name, u, x, u))
+    rep.ob("C05-R8", "si-words", n >= 300, "%d prefix x SI-symbol words examined" % n, nontrivial=True)
+
+
+def r9_update(facts, rep):
+    rep.rule("C05-R9", "a unit word that occurs twice in one unit expression must carry the same prefix, and that is found out "
+                       "before anything is changed (summary of Compound::update over a symbolic map): Err(the stored prefix) "
+                       "leaves the map untouched; on an entry that exists, every Ok path has compared the stored prefix equal "
+                       "to the new one - also the path on which the powers cancel and the entry is removed (`km/m` is not 1)")
+    from . import unitops as U
+    from ..absint.core import Agg as _A
+    from ..absint.term import T as _T, Sym as _S
+    try:
+        body, res = U.update_summary(facts)
+    except core.Undecided as e:
+        rep.ob("C05-R9", "update:summary", False, "undecided: %s" % e)
+        return
+    if body is None:
+        rep.ob("C05-R9", "anchor:Compound::update", False, "Compound::update not found")
+        return
+    bad = []
+    n_occ_ok = n_err = 0
+    stored_prefix = "stored(names,unit).prefix"
+    for r in res:
+        if r["kind"] != "ret":
+            continue  # overflow of the power sum: C11's subject
+        v = r["value"]
+        if not (isinstance(v, _A) and v.path == "std::result::Result"):
+            continue
+        occupied = any(isinstance(p_, _T) and p_.op == "contains" and b_ is True for p_, b_ in r["pc"])
+        mut = [e for e in r["log"] if e[0] in ("insert", "remove")]
+        cell_changed = any(isinstance(c_, _A) and repr(c_.field(0)) != "stored(names,unit).power" for c_ in r["cells"].values())
+        cmp_ = None
+        for p_, b_ in r["pc"]:
+            if isinstance(p_, _T) and p_.op in ("Ne", "Eq", "==") and stored_prefix in repr(p_) and "prefix" in repr(p_).replace(stored_prefix, ""):
+                cmp_ = (b_ is False) if p_.op == "Ne" else (b_ is True)
+        if v.vi == 1:
+            n_err += 1
+            if mut or cell_changed:
+                bad.append("Err is returned after the map was changed (%s%s)" % ([e[0] for e in mut], ", power rewritten" if cell_changed else ""))
+            if cmp_ is not False:
+                bad.append("Err is returned on a path where the prefixes were not compared unequal")
+        elif occupied:
+            n_occ_ok += 1
+            if cmp_ is not True:
+                bad.append("an existing entry is updated%s without its prefix having been compared equal to the new one" % (
+                    " and removed" if any(e[0] == "remove" for e in mut) else ""))
+    rep.ob("C05-R9", "update", not bad and n_occ_ok >= 2 and n_err >= 1, "; ".join(sorted(set(bad))[:3]) if bad else
+           "%d Ok path(s) on an existing entry, all behind the prefix comparison; %d Err path(s), none after a change" % (n_occ_ok, n_err), body.site())
+
+
 def r5_unit_expr(facts, rep):
     rep.rule("C05-R5", "unit-expression wiring in eval::unit (path summary over symbolic children): a WORD inserts its units "
                        "with the current sign as power; `/` negates the sign for everything after it; `^n` sets the power of the "
@@ -774,6 +848,8 @@ def run(fx, rep, tier):
     r3_bias(facts, rep, tabs)
     r4_vocabulary(facts, rep, tabs, tier)
     r5_unit_expr(facts, rep)
+    r8_si_words(facts, rep, tabs)
+    r9_update(facts, rep)
     rep.rule("C05-R6", "units that cancel inside one unit expression disappear (m*s/s = m): canonical form of the unit maps "
                        "(shared with C02-R1)")
     from . import c02
